@@ -344,4 +344,313 @@ example : ∃ ts tc dc, exModel.table "T" = some ts ∧ get? (Database.empty exM
     get? (Database.empty exModel) "T" = some dc ∧ CacheOK tc ∧ CacheOK dc ∧ ZeroOK (zeroRowOf ts) :=
   ⟨_, Cache.empty [], Cache.empty [], rfl, rfl, rfl, cacheOK_empty _, cacheOK_empty _, zeroOK_zeroRowOf _⟩
 
+/-- on values of one kind the code's evaluation fails only where the reference is undefined -/
+theorem evalCond_error_reference_none (f : CondFn) (a b : Value) (e : String)
+    (hk : a.kindTag = b.kindTag) (h : evalCond f a b = .error e) : Rfc.evalCond f a b = none := by
+  unfold evalCond at h
+  simp only [hk, ne_eq, not_true_eq_false, if_false] at h
+  cases a with
+  | atom x =>
+    cases b with
+    | atom y =>
+      cases f <;> simp only [reduceCtorEq] at h
+      all_goals
+        cases x <;> cases y <;> simp only [cmpAtoms, reduceCtorEq] at h <;> simp [Rfc.evalCond]
+    | opt y => cases x <;> simp [Value.kindTag] at hk
+    | set y => cases x <;> simp [Value.kindTag] at hk
+    | map y => cases x <;> simp [Value.kindTag] at hk
+  | opt x =>
+    cases b with
+    | atom y => cases y <;> simp [Value.kindTag] at hk
+    | opt y => cases f <;> simp only [reduceCtorEq] at h <;> simp [Rfc.evalCond, Rfc.asSet]
+    | set y => simp [Value.kindTag] at hk
+    | map y => simp [Value.kindTag] at hk
+  | set x =>
+    cases b with
+    | atom y => cases y <;> simp [Value.kindTag] at hk
+    | opt y => simp [Value.kindTag] at hk
+    | set y => cases f <;> simp only [reduceCtorEq] at h <;> simp [Rfc.evalCond, Rfc.asSet]
+    | map y => simp [Value.kindTag] at hk
+  | map x =>
+    cases b with
+    | atom y => cases y <;> simp [Value.kindTag] at hk
+    | opt y => simp [Value.kindTag] at hk
+    | set y => simp [Value.kindTag] at hk
+    | map y => cases f <;> simp only [reduceCtorEq] at h <;> simp [Rfc.evalCond]
+
+/-- **C03 (14)** conversely, on values of one kind (a column value and a condition
+    argument of that column's type) whatever the reference answers, the code answers -/
+theorem reference_agrees_evalCond (f : CondFn) (a b : Value) (v : Bool)
+    (hk : a.kindTag = b.kindTag) (h : Rfc.evalCond f a b = some v) : evalCond f a b = .ok v := by
+  cases hc : evalCond f a b with
+  | error e => rw [evalCond_error_reference_none f a b e hk hc] at h; cases h
+  | ok v' => rw [evalCond_agrees_reference f a b v' hc] at h; cases h; rfl
+
+
+theorem option_mapM_all {α : Type} (g : α → Option Bool) (l : List α) (bs : List Bool) (h : l.mapM g = some bs) :
+    (bs.all id = true ↔ ∀ a ∈ l, g a = some true) := by
+  induction l generalizing bs with
+  | nil => simp at h; subst h; simp
+  | cons a t ih =>
+    rw [List.mapM_cons] at h
+    cases hga : g a with
+    | none => simp [hga] at h
+    | some b =>
+      cases ht : t.mapM g with
+      | none => simp [hga, ht] at h
+      | some bs' =>
+        simp [hga, ht] at h
+        subst h
+        simp only [List.all_cons, Bool.and_eq_true, id, List.mem_cons, forall_eq_or_imp, ih bs' ht, hga, Option.some.injEq]
+
+/-- one condition of the reference interpreter's `matching`, on one row -/
+def refEval (ts : TableSchema) (row : Row) (u : UUID) (c : WCond) : Option Bool := do
+  let cs ← ts.column c.col
+  let arg ← (ovsToNative cs c.val).toOption
+  let v ← Rfc.colValue row u c.col
+  Rfc.evalCond c.fn v arg
+
+/-- the step of the reference's `matching` -/
+def matchStep (ts : TableSchema) (rows : AMap UUID Row) (w : List WCond) (acc : List (UUID × Row)) (u : UUID) :
+    Option (List (UUID × Row)) :=
+  match get? rows u with
+  | none => some acc
+  | some row => do
+    let oks ← w.mapM (refEval ts row u)
+    pure (if oks.all id then acc ++ [(u, row)] else acc)
+
+theorem matching_eq (ts : TableSchema) (rows : AMap UUID Row) (w : List WCond) :
+    Rfc.matching ts rows w = (keys rows).eraseDups.foldlM (matchStep ts rows w) [] := rfl
+
+theorem matchFold_spec (ts : TableSchema) (rows : AMap UUID Row) (w : List WCond) (l : List UUID)
+    (acc ms : List (UUID × Row)) (h : l.foldlM (matchStep ts rows w) acc = some ms) (p : UUID × Row) :
+    p ∈ ms ↔ (p ∈ acc ∨ (p.1 ∈ l ∧ get? rows p.1 = some p.2 ∧ ∀ c ∈ w, refEval ts p.2 p.1 c = some true)) := by
+  induction l generalizing acc with
+  | nil => simp at h; subst h; simp
+  | cons a t ih =>
+    simp only [List.foldlM_cons, bind, Option.bind] at h
+    split at h
+    · cases h
+    · rename_i acc1 h1
+      rw [ih acc1 h]
+      unfold matchStep at h1
+      split at h1
+      · rename_i hnone
+        simp only [Option.some.injEq] at h1
+        subst h1
+        constructor
+        · rintro (hp | ⟨hm, hr, hall⟩)
+          · exact Or.inl hp
+          · exact Or.inr ⟨List.mem_cons_of_mem _ hm, hr, hall⟩
+        · rintro (hp | ⟨hm, hr, hall⟩)
+          · exact Or.inl hp
+          · rcases List.mem_cons.mp hm with e | hm
+            · rw [e, hnone] at hr; cases hr
+            · exact Or.inr ⟨hm, hr, hall⟩
+      · rename_i row hrow
+        simp only [bind, Option.bind] at h1
+        split at h1
+        · cases h1
+        · rename_i oks hoks
+          simp only [pure, Option.some.injEq] at h1
+          have hall := option_mapM_all _ _ _ hoks
+          subst h1
+          constructor
+          · rintro (hp | ⟨hm, hr, hc⟩)
+            · split at hp
+              · rename_i hok
+                rcases List.mem_append.mp hp with hp | hp
+                · exact Or.inl hp
+                · simp only [List.mem_singleton] at hp
+                  subst hp
+                  exact Or.inr ⟨List.mem_cons_self, hrow, hall.mp hok⟩
+              · exact Or.inl hp
+            · exact Or.inr ⟨List.mem_cons_of_mem _ hm, hr, hc⟩
+          · rintro (hp | ⟨hm, hr, hc⟩)
+            · left; split
+              · exact List.mem_append_left _ hp
+              · exact hp
+            · rcases List.mem_cons.mp hm with e | hm
+              · left
+                have hpr : p = (a, row) := by
+                  rw [e, hrow] at hr; cases hr; cases p; simp at e ⊢; exact e
+                subst hpr
+                rw [if_pos (hall.mpr hc)]
+                exact List.mem_append_right _ (by simp)
+              · exact Or.inr ⟨hm, hr, hc⟩
+
+
+/-- one condition as the code evaluates it on one row (conversion of the argument, column lookup, `Evaluate`) -/
+def codeEval (ts : TableSchema) (row : Row) (u : UUID) (c : WCond) : Except String Bool :=
+  match ts.column c.col with
+  | none => .error "panic: nil column schema"
+  | some cs =>
+    match ovsToNative cs c.val with
+    | .error e => .error e
+    | .ok arg =>
+      match rowValue row u c.col with
+      | none => .error "column not found"
+      | some v => evalCond c.fn v arg
+
+theorem nativeConds_allTrue (ts : TableSchema) (w : List WCond) (conds : List Cond) (h : nativeConds ts w = .ok conds)
+    (u : UUID) (row : Row) : AllTrue conds u row ↔ ∀ c ∈ w, codeEval ts row u c = .ok true := by
+  unfold nativeConds at h
+  induction w generalizing conds with
+  | nil => simp [pure, Except.pure] at h; subst h; simp [AllTrue]
+  | cons c t ih =>
+    rw [List.mapM_cons] at h
+    simp only [bind, Except.bind] at h
+    split at h
+    · cases h
+    · rename_i cnd hc
+      split at h
+      · cases h
+      · rename_i rest hrest
+        simp only [pure, Except.pure, Except.ok.injEq] at h
+        subst h
+        have := ih rest hrest
+        simp only [AllTrue, List.mem_cons, forall_eq_or_imp] at this ⊢
+        rw [this]
+        apply and_congr_left'
+        -- the head condition
+        split at hc
+        · cases hc
+        · rename_i cs hcs
+          split at hc
+          · cases hc
+          · rename_i arg harg
+            simp only [pure, Except.pure, Except.ok.injEq] at hc
+            subst hc
+            unfold codeEval CondTrue
+            simp only [hcs, harg]
+            cases hv : rowValue row u c.col with
+            | none => simp
+            | some v => simp
+
+
+theorem rowValue_eq_colValue (row : Row) (u : UUID) (c : String) : rowValue row u c = Rfc.colValue row u c := rfl
+
+/-- the code's answer on one condition and one row is the reference's -/
+theorem codeEval_refEval (ts : TableSchema) (row : Row) (u : UUID) (c : WCond) (b : Bool)
+    (h : codeEval ts row u c = .ok b) : refEval ts row u c = some b := by
+  unfold codeEval at h
+  unfold refEval
+  split at h
+  · cases h
+  · rename_i cs hcs
+    split at h
+    · cases h
+    · rename_i arg harg
+      split at h
+      · cases h
+      · rename_i v hv
+        rw [rowValue_eq_colValue] at hv
+        simp [hcs, harg, hv, Except.toOption, bind, Option.bind, evalCond_agrees_reference _ _ _ _ h]
+
+/-- column value and condition argument are of one kind (both have the column's type) -/
+def KindOK (ts : TableSchema) (row : Row) (u : UUID) (c : WCond) : Prop :=
+  ∀ cs arg v, ts.column c.col = some cs → ovsToNative cs c.val = .ok arg → rowValue row u c.col = some v →
+    v.kindTag = arg.kindTag
+
+theorem refEval_codeEval (ts : TableSchema) (row : Row) (u : UUID) (c : WCond) (b : Bool)
+    (hk : KindOK ts row u c) (h : refEval ts row u c = some b) : codeEval ts row u c = .ok b := by
+  unfold refEval at h
+  unfold codeEval
+  cases hcs : ts.column c.col with
+  | none => simp [hcs, bind, Option.bind] at h
+  | some cs =>
+    cases harg : ovsToNative cs c.val with
+    | error e => simp [hcs, harg, Except.toOption, bind, Option.bind] at h
+    | ok arg =>
+      cases hv : rowValue row u c.col with
+      | none =>
+        rw [rowValue_eq_colValue] at hv
+        simp [hcs, harg, hv, Except.toOption, bind, Option.bind] at h
+      | some v =>
+        have hv' := hv
+        rw [rowValue_eq_colValue] at hv'
+        simp only [hcs, harg, hv', Except.toOption, bind, Option.bind] at h
+        simp only [harg]
+        exact reference_agrees_evalCond _ _ _ _ (hk cs arg v hcs harg hv) h
+
+theorem mem_eraseDups_keys_of_get? {ν : Type} (m : AMap UUID ν) (u : UUID) (v : ν) (h : get? m u = some v) :
+    u ∈ (keys m).eraseDups := by
+  rw [List.mem_eraseDups]; exact mem_keys_of_get? h
+
+/-- **C03 (15)** a `select` that opens a transaction (nothing cached, nothing
+    deleted yet) returns exactly the rows the reference interpreter's `matching`
+    returns on the database's rows, whenever the reference is defined there and
+    column values and condition arguments are of one kind. With (13) this ties
+    what the code returns to the oracle of the differential run, for every
+    condition list and index configuration. -/
+theorem select_fresh_agrees_reference (σ : DbModel) (db : Database) (tx tx1 : Txn) (op : Operation)
+    (ts : TableSchema) (tc dc : Cache)
+    (hts : σ.table op.table = some ts) (htc : get? tx.cache op.table = some tc) (hdc : get? db op.table = some dc)
+    (okT : CacheOK tc) (okD : CacheOK dc)
+    (hfresh : tc.rows = []) (hdel : tx.deleted = [])
+    (r : OpResult) (step : List ((String × UUID) × ModelUpdate))
+    (hop : op.op = "select") (h : execOp σ db tx op = .ok (r, tx1, step))
+    (ms : List (UUID × Row)) (hm : Rfc.matching ts dc.rows op.where_ = some ms)
+    (hk : ∀ u row, get? dc.rows u = some row → ∀ c ∈ op.where_, KindOK ts row u c) :
+    ∃ (sel : List (UUID × Row)) (out : List OvsRow),
+      (∀ p, p ∈ sel ↔ p ∈ ms) ∧
+      sel.mapM (fun p => newRow ts ⟨p.1, p.2⟩) = .ok out ∧ r.rows = out.map (projectRow op.columns) := by
+  obtain ⟨conds, sel, out, hn, hsel, hout, hr, _⟩ :=
+    select_exact σ db tx tx1 op ts tc dc hts htc hdc okT okD (zeroOK_zeroRowOf ts) r step hop h
+  refine ⟨sel, out, ?_, hout, hr⟩
+  rintro ⟨u, row⟩
+  rw [hsel u row, matching_eq] at *
+  rw [matchFold_spec ts dc.rows op.where_ _ [] ms hm (u, row)]
+  simp only [hdel, List.not_mem_nil, not_false_eq_true, true_and, hfresh, get?, reduceCtorEq, false_and, false_or]
+  constructor
+  · rintro ⟨hrow, hall⟩
+    refine ⟨mem_eraseDups_keys_of_get? _ _ _ hrow, hrow, ?_⟩
+    intro c hc
+    exact codeEval_refEval ts row u c true ((nativeConds_allTrue ts op.where_ conds hn u row).mp hall c hc)
+  · rintro ⟨_, hrow, hall⟩
+    refine ⟨hrow, (nativeConds_allTrue ts op.where_ conds hn u row).mpr ?_⟩
+    intro c hc
+    exact refEval_codeEval ts row u c true (hk u row hrow c hc) (hall c hc)
+
+/-! Non-vacuity of (15) on a database with two rows. -/
+def exRow1 : Row := [("name", .atom (.str "a")), ("n", .atom (.int 1))]
+def exRow2 : Row := [("name", .atom (.str "b")), ("n", .atom (.int 2))]
+def exDb : Database := [("T", ⟨[("u1", exRow1), ("u2", exRow2)], []⟩)]
+def exSel : Operation := { op := "select", table := "T", where_ := [⟨"name", .eq, .atom (.str "a")⟩], columns := ["n"] }
+
+theorem cacheOK_noIndexes (rows : AMap UUID Row) : CacheOK ⟨rows, []⟩ :=
+  ⟨by intro ix h; simp at h, by intro ix h; simp at h⟩
+
+/-- non-vacuity of (15): a database holding two rows, a select by name with a column list -/
+example : ∃ r tx1 step ms,
+    execOp exModel exDb { cache := Database.empty exModel } exSel = .ok (r, tx1, step) ∧
+    Rfc.matching { cols := [("name", { kind := .atom, key := .string }), ("n", { kind := .atom, key := .integer })] }
+      [("u1", exRow1), ("u2", exRow2)] exSel.where_ = some ms ∧ ms = [("u1", exRow1)] ∧
+    r.rows = [[("n", .atom (.int 1))]] := by
+  refine ⟨_, _, _, _, rfl, rfl, rfl, ?_⟩
+  decide
+def exTs : TableSchema := { cols := [("name", { kind := .atom, key := .string }), ("n", { kind := .atom, key := .integer })] }
+example : ∀ u row, get? ([("u1", exRow1), ("u2", exRow2)] : AMap UUID Row) u = some row →
+    ∀ c ∈ exSel.where_, KindOK exTs row u c := by
+  intro u row hr c hc cs arg v hcs harg hv
+  simp only [exSel, List.mem_singleton] at hc
+  subst hc
+  have hcs' : cs = { kind := .atom, key := .string } := by
+    have : exTs.column "name" = some { kind := .atom, key := .string } := rfl
+    rw [this] at hcs; cases hcs; rfl
+  subst hcs'
+  have : arg = .atom (.str "a") := by
+    have h2 : ovsToNative { kind := .atom, key := .string } (.atom (.str "a")) = .ok (.atom (.str "a")) := rfl
+    rw [h2] at harg; cases harg; rfl
+  subst this
+  simp only [get?_cons] at hr
+  split at hr
+  · cases hr
+    have : rowValue exRow1 u "name" = some (.atom (.str "a")) := rfl
+    rw [this] at hv; cases hv; rfl
+  · split at hr
+    · cases hr
+      have : rowValue exRow2 u "name" = some (.atom (.str "b")) := rfl
+      rw [this] at hv; cases hv; rfl
+    · simp [get?] at hr
 end Ovsdb.C03
